@@ -2,7 +2,10 @@
 use crate::engine::Property;
 pub mod common;
 pub mod c01;
+pub mod c02;
+pub mod c04;
+pub mod c05;
 
 pub fn all() -> Vec<Box<dyn Property>> {
-    vec![Box::new(c01::C01)]
+    vec![Box::new(c01::C01), Box::new(c02::C02), Box::new(c04::C04), Box::new(c05::C05)]
 }
